@@ -533,10 +533,13 @@ class FirstMatch(_Bodies):
             # i = 0; while i < N: i += 1; body     ->     for i in range(N): body       (i counts the rounds and nothing else: not read in the
             # body or after the loop, incremented once at the top level - first, or last with no `continue` - and N is a name or constant the
             # body does not assign)
-            if self.fn and isinstance(st, ast.While) and not st.orelse and out and isinstance(st.test, ast.Compare) and len(st.test.ops) == 1 \
-                    and isinstance(st.test.ops[0], ast.Lt) and isinstance(st.test.left, ast.Name) \
-                    and isinstance(st.test.comparators[0], (ast.Name, ast.Constant)):
-                iv, bound_e = st.test.left.id, st.test.comparators[0]
+            tst = st.test if isinstance(st, ast.While) else None
+            if isinstance(tst, ast.Compare) and len(tst.ops) == 1 and isinstance(tst.ops[0], ast.Gt) and isinstance(tst.comparators[0], ast.Name):
+                tst = ast.Compare(left=tst.comparators[0], ops=[ast.Lt()], comparators=[tst.left])        # N > i read as i < N
+            if self.fn and isinstance(st, ast.While) and not st.orelse and out and isinstance(tst, ast.Compare) and len(tst.ops) == 1 \
+                    and isinstance(tst.ops[0], ast.Lt) and isinstance(tst.left, ast.Name) \
+                    and isinstance(tst.comparators[0], (ast.Name, ast.Constant)):
+                iv, bound_e = tst.left.id, tst.comparators[0]
                 prev = out[-1]
                 init = isinstance(prev, ast.Assign) and len(prev.targets) == 1 and isinstance(prev.targets[0], ast.Name) and prev.targets[0].id == iv \
                     and isinstance(prev.value, ast.Constant) and prev.value.value == 0 and type(prev.value.value) is int
@@ -552,11 +555,38 @@ class FirstMatch(_Bodies):
                 used_elsewhere = any(isinstance(y, ast.Name) and y.id == iv and id(y) not in inside for y in ast.walk(self.fn[-1]))
                 bound_ok = isinstance(bound_e, ast.Constant) or not any(isinstance(y, ast.Name) and y.id == bound_e.id and isinstance(y.ctx, ast.Store)
                                                                        for s in st.body for y in ast.walk(s))
-                if init and len(incs) == 1 and (incs[0] == 0 or (incs[0] == len(st.body) - 1 and not has_continue)) and rest \
-                        and not mentions(rest, iv) and not used_elsewhere and bound_ok:
+                stores_iv = any(isinstance(y, ast.Name) and y.id == iv and isinstance(y.ctx, (ast.Store, ast.Del)) for s in rest for y in ast.walk(s))
+                last_inc = len(incs) == 1 and incs[0] == len(st.body) - 1 and not has_continue
+                if init and len(incs) == 1 and rest and not used_elsewhere and bound_ok and not stores_iv and \
+                        ((incs[0] == 0 and not mentions(rest, iv)) or last_inc):     # incremented last: the body sees the loop value
                     out.pop()
                     rng = ast.Call(func=ast.Name(id="range", ctx=ast.Load()), args=[bound_e], keywords=[])
                     out.append(_loc(ast.For(target=ast.Name(id=iv, ctx=ast.Store()), iter=rng, body=rest, orelse=[], type_comment=None), st))
+                    continue
+            # k = E; while 0 <= k: body(k); k -= 1      ->     for k in range(E, -1, -1): body(k)
+            tst = st.test if isinstance(st, ast.While) else None
+            if isinstance(tst, ast.Compare) and len(tst.ops) == 1 and isinstance(tst.ops[0], ast.GtE) and isinstance(tst.left, ast.Name):
+                tst = ast.Compare(left=tst.comparators[0], ops=[ast.LtE()], comparators=[tst.left])        # k >= 0 read as 0 <= k
+            if self.fn and isinstance(st, ast.While) and not st.orelse and out and isinstance(tst, ast.Compare) and len(tst.ops) == 1 \
+                    and isinstance(tst.ops[0], ast.LtE) and isinstance(tst.left, ast.Constant) and tst.left.value == 0 \
+                    and isinstance(tst.comparators[0], ast.Name) and len(st.body) >= 2:
+                kv = tst.comparators[0].id
+                prev = out[-1]
+                init = isinstance(prev, ast.Assign) and len(prev.targets) == 1 and isinstance(prev.targets[0], ast.Name) and prev.targets[0].id == kv
+                lastst = st.body[-1]
+                is_dec = isinstance(lastst, ast.AugAssign) and isinstance(lastst.op, ast.Sub) and isinstance(lastst.target, ast.Name) and lastst.target.id == kv \
+                    and isinstance(lastst.value, ast.Constant) and lastst.value.value == 1
+                rest = st.body[:-1]
+                stores = any(isinstance(y, ast.Name) and y.id == kv and isinstance(y.ctx, (ast.Store, ast.Del)) for s in rest for y in ast.walk(s))
+                has_continue = any(isinstance(y, ast.Continue) for s in rest for y in ast.walk(s))
+                inside = {id(y) for y in ast.walk(st)} | {id(y) for y in ast.walk(prev)}
+                used_elsewhere = any(isinstance(y, ast.Name) and y.id == kv and id(y) not in inside for y in ast.walk(self.fn[-1]))
+                if init and is_dec and not stores and not has_continue and not used_elsewhere:
+                    out.pop()
+                    rng = ast.Call(func=ast.Name(id="range", ctx=ast.Load()),
+                                   args=[prev.value, ast.UnaryOp(op=ast.USub(), operand=ast.Constant(value=1)), ast.UnaryOp(op=ast.USub(), operand=ast.Constant(value=1))],
+                                   keywords=[])
+                    out.append(_loc(ast.For(target=ast.Name(id=kv, ctx=ast.Store()), iter=rng, body=rest, orelse=[], type_comment=None), st))
                     continue
             # for t in it: assert [not] E, msg   ->   assert all(E for t in it) / not any(E for t in it), msg     (msg does not mention
             # t, and t is not used after the loop: the quantified form leaks nothing)
